@@ -32,6 +32,9 @@ def consts_for_tlc(c):
         Acts=set(c["acts"]),
         FailSets=[set(tuple(x) for x in fs) for fs in c.get("fail_sets", [[]])],
         LogSevs=set(c.get("log_sevs", [])),
+        Groups=[[tuple(a) for a in g] for g in c.get("groups", [])],
+        CtxVals=[[tuple(a) for a in cv] for cv in c.get("ctx_vals", [[]])],
+        CallArgs=[[tuple(a) for a in ca] for ca in c.get("call_args", [[]])],
         Tokens=set(c.get("tokens", [])), EPs=set(c.get("eps", [])), MsgClasses=set(c.get("msg_classes", [])),
     )
 
@@ -50,6 +53,10 @@ def label_to_event(label):
         return dict(op="SetDefault", l=a[0], k="", a=0, b=0)
     if name == "LogF":
         return dict(op="LogF", l=a[0], k="", a=a[1], b=a[2])
+    if name == "LogM":
+        return dict(op="LogM", l=a[0], k="", a=a[1], b=a[2])
+    if name == "SetAttrsR":
+        return dict(op="SetAttrsR", l=0, k="", a=a[0], b=0)
     if name == "LogA":
         return dict(op="LogA", l=a[0], k=a[1], a=a[2], b=0, mc=a[3], args=parse_tuple(a[4]))
     raise Undecided("unknown action label %r" % label)
@@ -69,7 +76,7 @@ def random_behaviours(c, rng, count, depth, max_loggers):
     """Seeded random histories over the same vocabulary, deeper and wider than the model bound."""
     res = []
     kinds = sorted(c["setter_args"].keys())
-    with_kinds = [k for k in kinds if k in ("JSONMode", "ColorMode", "UTCMode", "TimeFormat", "Level", "Attrs",
+    with_kinds = [k for k in kinds if k in ("JSONMode", "ColorMode", "UTCMode", "TimeFormat", "Level", "Attrs", "Attrs1", "SetKV",
                                             "Skip", "CtxKeys", "Writer", "ErrorWriter")]
     names = list(c["names"]) + [""]
     for _ in range(count):
@@ -103,6 +110,10 @@ def random_behaviours(c, rng, count, depth, max_loggers):
                 beh.append(dict(op="PkgSetLevel", l=0, k="", a=a, b=0))
             elif op == "SetDefault":
                 beh.append(dict(op="SetDefault", l=l, k="", a=0, b=0))
+            elif op == "LogM":
+                beh.append(dict(op="LogM", l=l, k="", a=rng.randint(1, len(c["ctx_vals"])), b=rng.randint(1, len(c["call_args"]))))
+            elif op == "SetAttrsR":
+                beh.append(dict(op="SetAttrsR", l=0, k="", a=rng.randint(0, 1), b=0))
             elif op == "LogA":
                 ep = rng.choice(sorted(c["eps"]))
                 r_ = 8 if "Println" in ep else rng.choice(sorted(c["log_sevs"]))
@@ -110,7 +121,10 @@ def random_behaviours(c, rng, count, depth, max_loggers):
                     r_ = 8          # no package-level function carries Off
                 n_ = rng.randint(0, c.get("rand_max_args", 8))
                 if rng.random() < 0.3:
-                    beh.append(dict(op="LogA", l=l, k=ep, a=r_, b=0, mc=rng.choice(sorted(c["msg_classes"])), args=[]))
+                    mc_ = rng.choice(sorted(c["msg_classes"]))
+                    if mc_ == "none" and "Println" not in ep:
+                        mc_ = "empty"
+                    beh.append(dict(op="LogA", l=l, k=ep, a=r_, b=0, mc=mc_, args=[]))
                 else:
                     beh.append(dict(op="LogA", l=l, k=ep, a=r_, b=0, mc="plain",
                                     args=[rng.choice(sorted(c["tokens"])) for _ in range(n_)]))
@@ -178,7 +192,8 @@ def run_core(ctx, c, invariants, properties, obs, rand_count, rand_depth, rand_l
     script = dict(seed=ctx.seed, init_level=c["init_level"], obs=obs, probe_sevs=rc.get("probe_sevs", [4]),
                   gate_sevs=rc.get("gate_sevs", []), names=sorted(rc["names"]), bool_lists=rc["bool_lists"],
                   layouts=rc["layouts"], opt_lists=rc["opt_lists"], customs=rc.get("customs", []),
-                  fail_sets=rc.get("fail_sets", [[]]), behaviours=behaviours)
+                  fail_sets=rc.get("fail_sets", [[]]), groups=rc.get("groups", []), ctx_vals=rc.get("ctx_vals", [[]]),
+                  call_args=rc.get("call_args", [[]]), behaviours=behaviours)
     sp = os.path.join(ctx.scratch, "script.json")
     with open(sp, "w") as fh:
         json.dump(script, fh)
